@@ -57,7 +57,7 @@ def lists_small(rng):
     """well-formed code point lists over a small universe, for the encoder validation"""
     import itertools
     base = [[], [5], [(3, 6)], [1, (3, 6)], [(0, 2), 4, (6, 9)], [2, 3, 4], [(1, 3), (3, 5)], [(0, 0x110000)],
-            [0x10FFFF], [(10, 20), (30, 40), 50]]
+            [0x10FFFF], [(10, 20), (30, 40), 50], [(4, 6)], [(4, 6), (8, 10)], [(5, 7), 9]]
     for L in base:
         yield L
     while True:
@@ -141,9 +141,18 @@ def add_native(kind):
     return native
 
 
-def add_samples(kind):
+def canon(L):
+    return [it if isinstance(it, int) or it[1] - it[0] > 1 else it[0] for it in L
+            ] if all(hi(a) < lo(b) for a, b in zip(L, L[1:])) else None
+
+
+def add_samples(kind, canonical=False):
     def gen(rng):
         for L in lists_small(rng):
+            if canonical:
+                L = canon(L)
+                if L is None:
+                    continue
             for x in (0, 3, 5, 7, 12):
                 if kind == 'int':
                     for v in (0, 2, 5, 6, 9, 10, 0x10FFFF, -1, 0x110000):
@@ -215,4 +224,146 @@ for kind, valid in (('int', "0 <= v and v <= 0x10FFFF"), ('range', "0 <= a and a
         pre=["wf_canon(L)"],
         post=[('canonical_form_kept', "not returned or wf_canon(L)")],
         loops={0: LoopSpec(DISCARD_INV[:5] + ["wf_canon(codepoints)"])}, specs=SPECS,
-        native=discard_native(kind), samples=add_samples(kind), timeout_s=30))
+        native=discard_native(kind), samples=add_samples(kind, canonical=True), timeout_s=30))
+
+
+# ---- finite obligation sets (GROUND): category and block tables, completely enumerated -----------
+
+def _items(subset):
+    return list(subset._codepoints)
+
+
+def _native_wf_canon(L):
+    return all(0 <= lo(it) < hi(it) <= MAXU for it in L) and all(hi(a) < lo(b) for a, b in zip(L, L[1:])) and \
+        all(isinstance(it, int) or it[1] - it[0] > 1 for it in L)
+
+
+def ground_categories_vs_unicodedata(tier, seed):
+    """every one of the 0x110000 code points x every category table of the running Unicode version"""
+    import unicodedata
+    from elementpath.regex import unicode_subsets as U
+    data = U.UnicodeData()          # the instance the package installs at import
+    assert data.version == unicodedata.unidata_version
+    fails, n = [], 0
+    cat_of = [None] * MAXU
+    for name, subset in data._categories.items():
+        if len(name) != 2:
+            continue
+        for it in _items(subset):
+            for cp in range(lo(it), hi(it)):
+                if cat_of[cp] is not None:
+                    fails.append({'key': f'dup {cp:#x}', 'what': f'U+{cp:04X} in {cat_of[cp]} and {name}'})
+                cat_of[cp] = name
+    for cp in range(MAXU):
+        n += 1
+        if cat_of[cp] != unicodedata.category(chr(cp)) and len(fails) < 20:
+            fails.append({'key': f'cp {cp:#x}', 'what': f'U+{cp:04X}: table says {cat_of[cp]}, unicodedata says '
+                                                        f'{unicodedata.category(chr(cp))}'})
+    # major categories are the unions of their subcategories
+    for name, subset in data._categories.items():
+        if len(name) == 1:
+            n += 1
+            want = sorted((lo(it), hi(it)) for k, s in data._categories.items() if len(k) == 2 and k[0] == name
+                          for it in _items(s))
+            merged = []
+            for a, b in want:
+                if merged and merged[-1][1] == a:
+                    merged[-1] = (merged[-1][0], b)
+                else:
+                    merged.append((a, b))
+            got = [(lo(it), hi(it)) for it in _items(subset)]
+            if got != merged:
+                fails.append({'key': f'major {name}', 'what': f'category {name} is not the union of its subcategories'})
+    return {'obligations': n, 'discharged': n - len(fails), 'evaluations': n, 'distinct': n, 'exhaustive': True,
+            'scope': f'Unicode {data.version}: 0x110000 code points x 30 two-letter categories == unicodedata.category; '
+                     '7 major categories == union of subcategories', 'failures': fails}
+
+
+def ground_tables_all_versions(tier, seed):
+    """every installable Unicode version: category tables are canonical code point lists, the
+    two-letter categories partition [0, 0x110000), majors are unions; block tables are the fold of
+    the UPDATE tables up to the version, and (non-superseded) blocks are pairwise disjoint."""
+    import warnings
+    from elementpath.regex import unicode_subsets as U, unicode_blocks as B
+    fails, n = [], 0
+    for version in U.UNICODE_VERSIONS:
+        vi = tuple(int(x) for x in version.split('.'))
+        with warnings.catch_warnings():
+            warnings.simplefilter('ignore')
+            data = U.UnicodeData(version)
+        two = {k: _items(s) for k, s in data._categories.items() if len(k) == 2}
+        n += 1
+        for k, L in data._categories.items():
+            if not _native_wf_canon(_items(L)):
+                fails.append({'key': f'{version} {k} canon', 'what': f'Unicode {version}: table {k} is not a canonical list'})
+        ivs = sorted((lo(it), hi(it)) for L in two.values() for it in L)
+        n += 1
+        pos = 0
+        for a, b in ivs:
+            if a != pos:
+                fails.append({'key': f'{version} partition {a:#x}', 'what': f'Unicode {version}: two-letter categories '
+                              f'{"overlap" if a < pos else "leave a gap"} at U+{min(a, pos):04X}..U+{max(a, pos):04X}'})
+                break
+            pos = b
+        else:
+            if pos != MAXU:
+                fails.append({'key': f'{version} partition end', 'what': f'Unicode {version}: categories end at U+{pos:04X}'})
+        for name, subset in data._categories.items():
+            if len(name) == 1:
+                n += 1
+                got = set()
+                want = set()
+                for it in _items(subset):
+                    got.add((lo(it), hi(it)))
+                merged = []
+                for a, b in sorted((lo(it), hi(it)) for k, L in two.items() if k[0] == name for it in L):
+                    if merged and merged[-1][1] == a:
+                        merged[-1] = (merged[-1][0], b)
+                    else:
+                        merged.append((a, b))
+                if sorted(got) != merged:
+                    fails.append({'key': f'{version} major {name}', 'what': f'Unicode {version}: {name} != union of subcategories'})
+        # block table: independent restatement of "apply every UPDATE table whose version <= v"
+        n += 1
+        expected = dict(B.UNICODE_BLOCKS_VER_2_0_0)
+        removed = []
+        for name in dir(B):
+            if name.startswith('UPDATE_BLOCKS_VER_') and tuple(int(x) for x in name[18:].split('_')) <= vi:
+                pass
+        for ver in sorted({tuple(int(x) for x in nm.split('VER_')[1].split('_')) for nm in dir(B)
+                           if nm.startswith(('UPDATE_BLOCKS_VER_', 'REMOVED_BLOCKS_VER_'))}):
+            if ver <= vi:
+                tag = '_'.join(str(x) for x in ver)
+                expected.update(getattr(B, 'UPDATE_BLOCKS_VER_' + tag, {}))
+                removed.extend(getattr(B, 'REMOVED_BLOCKS_VER_' + tag, []))
+        exp_keys = {k.replace(' ', '').replace('_', ''): v for k, v in expected.items()}
+        got_keys = {k: (v if isinstance(v, str) else None) for k, v in data._blocks.items() if k != 'NoBlock'}
+        if set(exp_keys) != set(got_keys) or any(got_keys[k] is not None and got_keys[k] != exp_keys[k] for k in got_keys):
+            diff = sorted(set(exp_keys) ^ set(got_keys))[:5] or [k for k in got_keys if got_keys[k] is not None and got_keys[k] != exp_keys[k]][:5]
+            fails.append({'key': f'{version} blocks', 'what': f'Unicode {version}: block table differs from the fold of the '
+                          f'UPDATE tables up to {version}: {diff}'})
+        want_names = {k.upper().replace(' ', '').replace('_', '').replace('-', '') for k in expected if k not in removed}
+        if set(data._unicode_blocks) - {'NOBLOCK'} != want_names:
+            fails.append({'key': f'{version} block names', 'what': f'Unicode {version}: normalized block names differ: '
+                          f'{sorted(set(data._unicode_blocks) ^ want_names)[:5]}'})
+        # pairwise disjointness of the blocks of this version (superseded aliases excluded)
+        n += 1
+        ivs = []
+        for key, name in data._unicode_blocks.items():
+            if key == 'NOBLOCK':
+                continue
+            for it in _items(data.block(name.replace(' ', '').replace('_', ''))):
+                ivs.append((lo(it), hi(it), name))
+        ivs.sort()
+        for (a1, b1, n1), (a2, b2, n2) in zip(ivs, ivs[1:]):
+            if a2 < b1:
+                fails.append({'key': f'{version} overlap {n1}/{n2}', 'what': f'Unicode {version}: blocks {n1} and {n2} overlap'})
+                break
+    return {'obligations': n, 'discharged': max(0, n - len(fails)), 'evaluations': n, 'distinct': n, 'exhaustive': True,
+            'scope': f'{len(U.UNICODE_VERSIONS)} installable Unicode versions x (canonical tables, partition of [0,0x110000), '
+                     'majors = unions, block table = fold of UPDATE tables <= version, blocks pairwise disjoint)',
+            'failures': fails[:20]}
+
+
+GROUND = [Bounded('categories_equal_unicodedata', ground_categories_vs_unicodedata),
+          Bounded('tables_all_versions', ground_tables_all_versions)]
